@@ -29,6 +29,8 @@ Fixpoint dprog (fuel : nat) (x : sx) : option prog :=
       | L [A 8%Z; k] => match as_nat k with Some k => Some (PCancel k) | _ => None end
       | L [A 9%Z; k; d] =>
           match as_nat k, as_onat d with Some k, Some d => Some (PResched k d) | _, _ => None end
+      | L [A 11%Z; id; d] =>
+          match as_nat id, as_nat d with Some id, Some d => Some (PFail id d) | _, _ => None end
       | L [A 10%Z; id; c; body] =>
           match as_nat id, as_nat c, dprog fu body with
           | Some id, Some c, Some body =>
@@ -54,6 +56,7 @@ Definition enc_event (e : event) : sx :=
   | EvCatch id t exc => L [A 3; of_nat id; of_nat t; of_nat exc]
   | EvExt t n sh => L [A 4; of_nat t; of_nat n; of_bool sh]
   | EvCancel id t => L [A 5; of_nat id; of_nat t]
+  | EvResched id t dl => L [A 6; of_nat id; of_nat t; of_opt of_nat dl]
   end.
 
 (* outcome of the task: 0 returned, 1 cancelled, 2 TimeoutError, 3 other exception, 8 out of fuel, 9 loop blocked *)
